@@ -141,7 +141,7 @@ def run(ctx):
 
 
 def row_loops(ev, owner):
-    ls = [l for l in ev.vf.loops if l.kind == 'for' and l.owner == owner]
+    ls = [l for l in ev.vf.loops if l.kind == 'for']       # the exporter's own loops and those of private helpers inlined into it
     top = [l for l in ls if not l.ctx]
     out = []
     for t in top:
